@@ -213,11 +213,21 @@ def prim_sizes(st):
 
 
 def run(ctx):
-    return evaluate(ctx, gen(ctx), ["dbg", "isa"] if ctx.quick else ["dbg", "isa", "rel"])
+    corr = evaluate(ctx, gen(ctx), ["dbg", "isa"] if ctx.quick else ["dbg", "isa", "rel"])
+    from harness import narrowlib
+    narrowlib.part(ctx, corr, "backup", "backup_value")      # 8- and 16-bit coordinate types, every value of the type
+    return corr
 
 
 def replay(ctx):
     c = ctx.replay["case"]
+    if c and c.get("op") == "narrow":
+        from vlib.framework import Corr as _Corr
+        from harness import narrowlib
+        corr = _Corr()
+        corr.add_obl("backup_value")
+        narrowlib.part(ctx, corr, "backup", "backup_value", cfgs=(c.get("cfg", "dbg"),))
+        return corr
     if not c or not c.get("stack"):
         return run(ctx)
     st = G.from_json(c["stack"])
